@@ -73,6 +73,21 @@ func (b *bounds) discharge(c *core.Ctx, site core.IndexSite) (bool, string) {
 		}
 	}
 	var why []string
+	// (0) read-count idiom: buf[:n] where n is the count returned by Read/ReadFrom(buf) on that very buffer
+	// (io contract: 0 <= n <= len(buf))
+	if isSlice && lo == nil && hi != nil {
+		if ex, ok := hi.(*ssa.Extract); ok && ex.Index == 0 {
+			if cl, ok := ex.Tuple.(*ssa.Call); ok {
+				if f := core.Callee(cl); f != nil && (f.Name() == "ReadFrom" || f.Name() == "ReadFromUDP" || f.Name() == "Read") {
+					for _, a := range cl.Call.Args {
+						if core.Unwrap(a) == core.Unwrap(x) {
+							return true, "read-count idiom: the slice is cut to the byte count returned by " + f.Name() + " on the same buffer (0 <= n <= len)"
+						}
+					}
+				}
+			}
+		}
+	}
 	if ok, how := b.lastElem(in, x, idx, lo, hi, isSlice); ok {
 		return true, how
 	} else if how != "" {
